@@ -321,9 +321,26 @@ class C01Driver:
                 viol.append({"property": "C01", "rule": "diverge", "key": "C01/diverge", "step": step, "plan_index": i,
                              "msg": f"{'shipped ' + plan['shipped'] if plan.get('shipped') else 'generated world'}: PYTHONHASHSEED={a} and {b} differ at step {step} in {what}",
                              "pair": [a, b], "plan": plan, "seed": plan["seed"]})
+        feats = {"worlds_with_a_vehicle_in_two_or_more_fleets": 0, "worlds_with_two_or_more_on_shift_electric_plug_types_at_a_station": 0,
+                 "worlds_with_human_drivers": 0, "worlds_with_a_scripted_controller": 0, "worlds_on_a_street_graph": 0}
+        for plan in plans:
+            sp = plan.get("spec") or {}
+            if not sp.get("sim"):
+                continue
+            fl = sp.get("fleets") or {}
+            cnt = {}
+            for f in fl.values():
+                for vid in f["vehicles"]:
+                    cnt[vid] = cnt.get(vid, 0) + 1
+            feats["worlds_with_a_vehicle_in_two_or_more_fleets"] += int(any(c >= 2 for c in cnt.values()))
+            feats["worlds_with_two_or_more_on_shift_electric_plug_types_at_a_station"] += int(any(
+                sum(1 for p in st["plugs"] if p["on_shift"] and world.ENERGY_OF[p["charger"]] == "electric") >= 2 for st in sp["stations"]))
+            feats["worlds_with_human_drivers"] += int(any(v.get("schedule") for v in sp["vehicles"]))
+            feats["worlds_with_a_scripted_controller"] += int(any(g.startswith("adv") for g in (plan["run"].get("generators") or [])))
+            feats["worlds_on_a_street_graph"] += int(sp["network"]["kind"] != "haversine")
         self._viol_plans = {v["plan_index"]: v for v in viol}
         cov = {"evaluations": len(plans), "distinct_nontrivial": len(nontriv), "interpreters_per_scenario": k, "hash_seeds": hashseeds,
-               "steps": steps, "simulated_seconds": sim_s, "simulated_hours": sim_s / 3600.0, "scenarios_diverging": diverged, "scenarios_ended_by_an_exception_escaping_hive_identically_in_all_interpreters": stopped_n,
+               "steps": steps, "simulated_seconds": sim_s, "simulated_hours": sim_s / 3600.0, "scenarios_diverging": diverged, "world_features": feats, "scenarios_ended_by_an_exception_escaping_hive_identically_in_all_interpreters": stopped_n,
                "shipped_scenarios": [s for s, _ in shipped], "fault_kinds_fired": {"hash_seed_change": len(plans) * (k - 1), "fresh_interpreter": len(plans) * k},
                "runs_per_hour": len(plans) * k / max(1e-9, time.time() - t0) * 3600,
                "samples": [{"seed": p["seed"], "shipped": p.get("shipped"), "size": plan_size(p) if p.get("spec", {}).get("sim") else None,
